@@ -25,13 +25,15 @@ pub fn run(a: &Args) {
         let ff_start = regions[3].0;
         // sanity of the harness's own pattern formula against an independent read
         if let Some(b) = read_mem(target.pid, regions[0].0, 64) { if b.iter().enumerate().any(|(i, x)| *x != pattern(regions[0].0 + i as u64)) { out.notes.push("pattern formula disagrees with target memory".into()); } }
-        for _ in 0..a.n {
-            let (start, rlen) = *rng.pick(&regions);
-            let len = match rng.below(40) { 0 => rng.range(4097, 64 * 1024), 1..=4 => rng.range(1, 16), 5..=9 => 8 * rng.range(1, 64), 10..=12 => rng.range(1, 4096), 13 => 4096, 14..=19 => rng.range(1, 7), _ => rng.range(1, 300) };
-            let off = match rng.below(6) { 0 => rlen.saturating_sub(len),                         // ends exactly at the mapping end
+        // fixed ranges of the largest lengths at unaligned starts (17 pages touched by at most 64 KiB), then generated ones
+        let fixed: Vec<(u64, u64)> = vec![(1, 65536), (8, 65536), (4095, 65536), (4090, 61450), (0, 65536), (100, 65436), (4095, 61442), (2049, 63488)];
+        for it in 0..a.n as usize + fixed.len() {
+            let (start, rlen) = if it < fixed.len() { regions[0] } else { *rng.pick(&regions) };
+            let len = if it < fixed.len() { fixed[it].1 } else { match rng.below(40) { 0 => rng.range(4097, 64 * 1024), 1..=4 => rng.range(1, 16), 5..=9 => 8 * rng.range(1, 64), 10..=12 => rng.range(1, 4096), 13 => 4096, 14..=19 => rng.range(1, 7), _ => rng.range(1, 300) } };
+            let off = if it < fixed.len() { fixed[it].0 } else { match rng.below(6) { 0 => rlen.saturating_sub(len),                         // ends exactly at the mapping end
                                            1 => rlen.saturating_sub(len) + rng.range(1, 9),       // runs past the end
                                            2 => rlen - rng.range(1, 8).min(rlen),                  // starts just before the end
-                                           3 => 0, _ => rng.below(rlen) };
+                                           3 => 0, _ => rng.below(rlen) } };
             let off = off.min(rlen - 1);
             let src = start + off;
             for (st, name) in [(0u64, "vmem"), (1, "file"), (2, "ptrace")] {
